@@ -45,7 +45,7 @@ pub fn term_grid(m: &RefLog) -> Vec<u64> {
     v
 }
 
-fn replay(hist: &[Op], cfg: &Cfg) -> Option<Sut> {
+fn replay_hist(hist: &[Op], cfg: &Cfg) -> Option<Sut> {
     let mut sut = Sut::open(*cfg).ok()?;
     for op in hist {
         match op {
@@ -104,7 +104,7 @@ pub fn write_probes(m: &RefLog) -> Vec<Op> {
 pub fn run_grid(spec: &SeqSpec, hist: &[Op], m: &RefLog, rep: &mut Vec<Violation>, stats: &SeqStats) {
     for cfg in &spec.cfgs {
         // read probes share one store (reads do not mutate)
-        if let Some(sut) = replay(hist, cfg) {
+        if let Some(sut) = replay_hist(hist, cfg) {
             let idx = index_grid(m);
             for a in &idx {
                 for b in &idx {
@@ -147,7 +147,7 @@ pub fn run_grid(spec: &SeqSpec, hist: &[Op], m: &RefLog, rep: &mut Vec<Violation
         }
         for probe in write_probes(m) {
             stats.probes.fetch_add(1, Ordering::Relaxed);
-            let Some(mut sut) = replay(hist, cfg) else { continue };
+            let Some(mut sut) = replay_hist(hist, cfg) else { continue };
             let res = sut.call(&probe);
             if let CallResult::Panic(msg) = &res {
                 rep.push(pvio(
@@ -179,6 +179,46 @@ pub fn run_grid(spec: &SeqSpec, hist: &[Op], m: &RefLog, rep: &mut Vec<Violation
                 continue;
             }
             let _ = sut.flush_wait();
+        }
+    }
+}
+
+/// Re-executes one recorded probe: history, then the probed call.
+pub fn replay(prop: &str, r: &serde_json::Value) -> i32 {
+    let hist: Vec<Op> = r["history"].as_array().map(|a| a.iter().map(crate::seqx::op_from_json).collect()).unwrap_or_default();
+    let cfg = crate::seqx::cfg_from_json(&r["cfg"]);
+    let Some(mut sut) = replay_hist(&hist, &cfg) else {
+        println!("REPLAY property={} the history could not be replayed on this tree", prop);
+        return 2;
+    };
+    let p = &r["probe"];
+    let res: Result<String, String> = if p["op"] == "read" {
+        let (a, b) = (p["from"].as_u64().unwrap_or(0), p["to"].as_u64().unwrap_or(0));
+        catch_unwind(AssertUnwindSafe(|| format!("{} entries", sut.rl().read(a, b).take(64).count()))).map_err(panic_msg)
+    } else if p["op"] == "observers" {
+        catch_unwind(AssertUnwindSafe(|| {
+            let rl = sut.rl();
+            let _ = rl.stat();
+            let _ = rl.on_disk_size();
+            let mut d = rl.dump_data();
+            format!("{} entries", d.iter().count())
+        }))
+        .map_err(panic_msg)
+    } else {
+        let op = crate::seqx::op_from_json(&p["op"]);
+        match sut.call(&op) {
+            CallResult::Panic(m) => Err(m),
+            other => Ok(format!("{:?}", other)),
+        }
+    };
+    match res {
+        Ok(x) => {
+            println!("REPLAY property={} held for this case (returned {})", prop, x);
+            0
+        }
+        Err(m) => {
+            println!("REPLAY property={} VIOLATION the probed call panicked: {}", prop, m);
+            1
         }
     }
 }
